@@ -773,6 +773,16 @@ def _search(ctx, rng):
             spec = malform(rng, spec)
             be = spec["backend"]
         h1, h2 = draw_hbar_pair(rng)
+        if spec.get("malformed") in ("gauss-V-unphysical", "param-inf"):
+            # accepted garbage (an unphysical covariance matrix, infinite parameters) has no stable observables:
+            # only acceptance / the kind of rejection must be the same in both conventions
+            k1, k2 = _runs(spec, h1), _runs(spec, h2)
+            if k1 != k2:
+                ctx.counterexample("%s:run-raises" % be, "the experiment runs at hbar=%s (%s) but not at hbar=%s (%s)" % (h1, k1, h2, k2),
+                                   {"check": "pair", "spec": spec, "h1": h1, "h2": h2, "obs": "run"})
+            ctx.case({"spec_hash": spec_seed(spec), "malformed": spec["malformed"], "h": [h1, h2], "both": [k1, k2]}, nontrivial=False,
+                     bucket="malformed:%s:%s" % (spec["malformed"], k1))
+            continue
         try:
             bad, nobs = compare_pair(spec, h1, h2)
         except Exception as e:
